@@ -314,6 +314,15 @@ func sequential(r *ev.Run, sd sysDef, u *uni.Universe, rng *rand.Rand, maxRoots 
 	// resolution gets its own step budget through a switchable client.
 	sw := &switchClient{}
 	res := sd.mk(sw)
+	// Graphs handed out by the first resolutions are kept as they were
+	// returned (encode works on a copy): whatever is resolved later on the same
+	// resolver and client must not change them.
+	type keptGraph struct {
+		rt  resolve.VersionKey
+		g   *resolve.Graph
+		was string
+	}
+	var kept []keptGraph
 	resolveShared := func(rt resolve.VersionKey) string {
 		ctx, cancel := context.WithCancel(context.Background())
 		defer cancel()
@@ -323,8 +332,23 @@ func sequential(r *ev.Run, sd sysDef, u *uni.Universe, rng *rand.Rand, maxRoots 
 		if cc.Exhausted() {
 			return "STEP-BUDGET-EXHAUSTED"
 		}
+		if err == nil && g != nil && len(kept) < 4 {
+			kept = append(kept, keptGraph{rt, g, uni.Encode(g, nil)})
+			return encode(copyGraph(g), err)
+		}
 		return encode(g, err)
 	}
+	defer func() {
+		for _, k := range kept {
+			r.Eval(1)
+			r.Count("kept_graphs_reread:"+sd.name, 1)
+			if now := uni.Encode(k.g, nil); now != k.was && !reported["kept"] {
+				reported["kept"] = true
+				r.Violation("C05:"+sd.name+":earlier-graph-changed", fmt.Sprintf("%s: the graph returned for %v reads differently after the later resolutions on the same resolver and client\n--- when returned\n%s\n--- now\n%s", sd.name, k.rt, k.was, now),
+					Case{Sys: sd.name, Universe: u, Root: [2]string{k.rt.Name, k.rt.Version}, Step: "earlier-graph-changed"})
+			}
+		}
+	}()
 	for _, rt := range roots { // repeat
 		differ("repeat", rt, resolveShared(rt))
 		checkState("repeat", rt)
@@ -366,6 +390,21 @@ func sequential(r *ev.Run, sd sysDef, u *uni.Universe, rng *rand.Rand, maxRoots 
 	for _, rt := range roots {
 		differ("defensive-copy-client", rt, run(sd.mk, c3, budget, rt))
 	}
+}
+
+// copyGraph copies nodes (with errors) and edges (with cloned types), so that
+// canonicalising the copy leaves the original as the resolver returned it.
+func copyGraph(g *resolve.Graph) *resolve.Graph {
+	c := &resolve.Graph{Nodes: make([]resolve.Node, len(g.Nodes)), Edges: make([]resolve.Edge, len(g.Edges)), Error: g.Error, Duration: g.Duration}
+	for i, n := range g.Nodes {
+		c.Nodes[i] = n
+		c.Nodes[i].Errors = append([]resolve.NodeError(nil), n.Errors...)
+	}
+	for i, e := range g.Edges {
+		c.Edges[i] = e
+		c.Edges[i].Type = e.Type.Clone()
+	}
+	return c
 }
 
 // earlierState derives a different state of the same registry: same package
